@@ -87,3 +87,9 @@ PROPS["C11"] = dict(pkg="c11", shards=16, level="exploration", race=True,
     technique="property-based testing (rapid) over generated callable schemas and call histories, sequential and barrier-released concurrent, built with -race; oracle = recording handlers compared with a second identically built instance of every scope, errors.As on the documented error types, step-data identity per run ID",
     level_text="Exploration: generated steps (with and without signals / initializer), scripted handler behaviours and histories of step and signal calls over a small pool of run IDs, executed sequentially or concurrently under the race detector; invocation counts, arguments, returned triples, error types and step-data identity are checked against an independent second instance of each schema.",
     level_note="Handlers are generic over `any` input so that the input type assertion inside Call cannot fail; scopes are map-based; concurrency explores whatever interleavings the scheduler produces for barrier-released goroutines (the race detector reports unsynchronised access).")
+
+PROPS["C13"] = dict(pkg="c13", shards=16, level="exploration", race=True,
+    technique="concurrency property testing: rapid-generated schemas and operation mixes run by 2-16 barrier-released goroutines inside -race worker processes (GORACE=halt_on_error), first-use paths raced on fresh / rebuilt instances and in brand-new processes for package-level state; oracle = race detector + differential against isolated evaluation",
+    level_text="Exploration: generated schemas with lazily initialised features, fresh or rebuilt per trial, hammered by barrier-released goroutines with mixed operations in race-detector-instrumented worker processes; package-level first use is raced in a new process per trial; every concurrent result is compared with the same call made alone on another fresh instance.",
+    level_note="The race detector only reports races that the scheduler actually exercises in the trial; schedules are whatever the Go scheduler produces for goroutines released together (no schedule control here). Replays repeat the trial 200 times.",
+    cap_s={"quick": 900, "thorough": 3400})
